@@ -909,10 +909,14 @@ impl MemoryLoc {
                 let mut off = 0;
                 macro_rules! mem_cpy_loop {
                     ($width:expr) => {
-                        while (off + $width) <= (ty.stride() as i32 / $width) * $width {
+                        // every store is exactly `$width` bytes wide and stays inside `ty`
+                        // (a store of 8 bytes for the last 1, 2 or 4 bytes would run over
+                        // whatever comes after `ty` in the stack slot)
+                        while (off + $width) <= ty.size() as i32 {
+                            let pattern = u64::from_le_bytes([val; 8]) >> (64 - 8 * $width);
                             let val = builder.ins().iconst(
-                                cranelift::codegen::ir::Type::int_with_byte_size(8).unwrap(),
-                                val as i64,
+                                cranelift::codegen::ir::Type::int_with_byte_size($width).unwrap(),
+                                pattern as i64,
                             );
                             builder
                                 .ins()
